@@ -1,2 +1,37 @@
-(** C05 — operator core (stub, being built). *)
-Require Import SqlV.Base SqlV.PrecSpec SqlV.Pratt SqlV.PrattProofs SqlV.PrinterCore.
+(** C05 — printing a parsed statement loses no identifier or literal: the operator core.
+    Statements only.  (Outside the core the property is evaluated on the implementation by
+    lib/props/C05.py.) *)
+Require Import SqlV.Base SqlV.PrecSpec SqlV.Pratt SqlV.PrattProofs SqlV.PrinterCore SqlV.PrinterCoreProofs
+  SqlVGen.PrecTables.
+
+Lemma C05_unknown_zero : forall f d lv extra, In (f, d, lv, extra) all_dialects -> lvl d K_UNKNOWN = 0.
+Proof.
+  intros f d lv extra H. cbn [all_dialects In] in H.
+  repeat (destruct H as [H|H]; [inversion H; subst; vm_compute; reflexivity|]). destruct H.
+Qed.
+
+(** every content token the parser consumes is stored in the tree, in order (stronger than the
+    multiset statement of the property) *)
+Theorem C05_core : forall f d lv extra ts e rest,
+  In (f, d, lv, extra) all_dialects ->
+  parse_expr d ts = Ok (e, rest) -> content ts = content (yield e) ++ content rest.
+Proof.
+  intros f d lv extra ts e rest Hin. exact (PrinterCoreProofs.C05_core d ts e rest (C05_unknown_zero f d lv extra Hin)).
+Qed.
+Print Assumptions C05_core.
+
+(** ... and printed back unchanged when the tree is in canonical spelling (no unquoted ESCAPE word) *)
+Theorem C05_core_printed : forall f d lv extra ts e rest,
+  In (f, d, lv, extra) all_dialects -> canonical e = true ->
+  parse_expr d ts = Ok (e, rest) -> content ts = content (ptoks e) ++ content rest.
+Proof.
+  intros f d lv extra ts e rest Hin. exact (PrinterCoreProofs.C05_core_printed d ts e rest (C05_unknown_zero f d lv extra Hin)).
+Qed.
+Print Assumptions C05_core_printed.
+
+(** refuted for an unquoted ESCAPE word (known finding core:like-escape-word): the identifier x3
+    comes back as the string literal 'x3' *)
+Example C05_escape_word_refuted :
+  let e := ELike LLike false false (EAtom false 1) (EAtom false 2) (Some (false, 3)) in
+  content (yield e) = [CWord 1; CWord 2; CWord 3] /\ content (ptoks e) = [CWord 1; CWord 2; CStr 100003].
+Proof. split; vm_compute; reflexivity. Qed.
